@@ -92,8 +92,7 @@ def main():
         open(full, "w").write("\n".join(lines))
         rec = {"file": rel, "line": li + 1, "before": before.strip(), "after": lines[li].strip(), "t": time.strftime("%H:%M:%S")}
         try:
-            rc, out = sh("./check --setup 2>&1 | head -5", VERIF, env=env)
-            rcb, outb = sh("cd harness && cargo build 2>&1 | grep -E '^error' | head -3", VERIF)
+            rcb, outb = sh("cd harness && (cargo build 2>&1; cargo build --release 2>&1) | grep -E '^error' | head -3", VERIF)
             if outb.strip():
                 rec["verdict"] = "does-not-compile"
             else:
